@@ -15,21 +15,24 @@ CLAIMED = {
  "C14": "clone / detach / to / type / float / double / cpu / evaluate_kernel / representation_tree rebuild of every catalogue operator: dense value and matmul proved equal to the reference for all leaf values; class, dtypes (incl. index tensors, torch default dtype), storage disjointness and requires_grad read off each explored path.",
  "C15": "Both torch-function registration tables are read at run time; for each registered function a recipe compares torch.f(op,...), the method and torch.f(dense,...) symbolically for all leaf values, both operand orders, tensor / scalar / operator operands; unregistered functions must raise NotImplementedError.",
 }
+CLAIMED["C17"] = "CrossHair executes the REAL settings base classes (and the two composites, and the one concrete class that overrides _set_state) symbolically under histories of 6 symbolic events (construct / enter / exit / exit-by-exception / re-enter) with symbolic values over two setting classes; post: the real classes report the value of a reference stack model after every event. 19 conditions, each 'Confirmed over all paths'; all concrete setting classes are checked by reflection to inherit the proven methods."
 NA = {}
 checks = []
 for p in props:
     pid = p["id"]
     if pid in CLAIMED:
         checks.append({"property_id": pid, "quick_cmd": f"./vcheck {pid} --tier quick", "thorough_cmd": f"./vcheck {pid} --tier thorough",
-                       "evidence_file": f"/verif/evidence/{pid}.json", "replay_cmd_template": "./vcheck replay {path}", "engine": "symtrace",
+                       "evidence_file": f"/verif/evidence/{pid}.json", "replay_cmd_template": "./vcheck replay {path}", "engine": "symtrace" if pid != "C17" else "crosshair",
                        "level_claimed": {"category": "model_checking", "text": CLAIMED[pid] + " Bounded: nothing is claimed beyond the stated sizes.",
                                          "design_ref": f"DESIGN.md §6 {pid}"},
-                       "level_note": COMMON_NOTE, "technique": TECH})
+                       "level_note": COMMON_NOTE if pid != "C17" else "CrossHair path exploration is complete only within the stated history length (6 events, 2 classes); threads are outside the property; a condition that is 'Not confirmed' within its time budget is reported inconclusive, never as success",
+                       "technique": TECH if pid != "C17" else "CrossHair symbolic execution (z3) of the real Python classes against a reference model; counterexamples re-executed concretely",
+                       })
 m = {"version": 1, "setup_cmd": "./vcheck setup",
      "hooks": {"guard": "LINEAR_OPERATOR_VERIF", "enable": "none needed: the dispatch mode observes the unmodified library (no source hooks)",
                "baseline_off_cmd": "cd /repo && /venv/bin/python -m pytest -ra -q -p no:cacheprovider --timeout=900 --continue-on-collection-errors",
                "source_commits": [], "add_only": True},
-     "engines": [{"name": "symtrace", "path": "symtrace/", "serves_properties": sorted(CLAIMED),
+     "engines": [{"name": "crosshair", "path": "ch/", "serves_properties": ["C17"], "kind_free_text": "crosshair-tool 0.0.110 on the real pure-Python classes, one process per condition"}, {"name": "symtrace", "path": "symtrace/", "serves_properties": sorted(CLAIMED),
                   "kind_free_text": "TorchDispatchMode symbolic shadow execution of the real library on hash-consed term DAGs; z3 (RAW) + polynomial normaliser modulo atom relations (NORM) + seeded refutation; concolic path exploration; replay on the real code"}],
      "checks": checks,
      "not_applicable": [{"property_id": p["id"], "reason": NA.get(p["id"], "check not built yet in this round (planned, see DESIGN.md §6)")} for p in props if p["id"] not in CLAIMED],
